@@ -405,4 +405,5 @@ def cells(tier):
                         out.append(Cell(name, _make_extrusion(entry, rel, ext_rel, has_prev, geom),
                                         budget_s=120 if quick else 600,
                                         entry="extrusion_hook.hook_function"))
+    out += history_variants([c for c in out if not c.name.startswith(('history', 'real-', 'two-'))])
     return out
